@@ -63,6 +63,23 @@ def nest3():
                         yield ("%s[%d]>%s[%d]>%s" % (pn, slot, cn, slot2, gn), pf(args))
 
 
+def nest2x2():
+    """parent(child(g1, g2)): a binary child both of whose operands are themselves compound"""
+    ks = kinds(False)
+    bins = [k for k in ks if k[0].startswith("bin ") or k[0].startswith("notbin ")]
+    inner = [k for k in ks if k[1] <= 2]
+    for pn, par, pf in ks:
+        for slot in range(par):
+            for cn, car, cf in bins:
+                for g1n, g1a, g1f in inner[::2]:
+                    for g2n, g2a, g2f in inner[1::2]:
+                        g1 = g1f([leaf(i) for i in range(g1a)])
+                        g2 = g2f([leaf(4 + i) for i in range(g2a)])
+                        args = [leaf(6 + i) for i in range(par)]
+                        args[slot] = cf([g1, g2])
+                        yield ("%s[%d]>%s>(%s,%s)" % (pn, slot, cn, g1n, g2n), pf(args))
+
+
 SPECIALS = [
     "", " ", "1", "1.10", "0.0", "007", "1.000", "'a\"b'", "\"it's\"", "''", "\"\"", "'é日本'", "[]", "{}", "f()", "[1,]", "{1:2,}", "a;b", "a;b;c", "a;", "1 2", "a b c",
     "'x' + \"y\"", "f('a\"b', \"c'd\")", "{'k\"':1}", "-1", "- -1", "-(-1)", "1 - -1", "1 - (-1)", "a ++ + ++ b".replace("++ b", "b"), "(a)++", "[a, b]++", "f()++", "{1:2}++",
@@ -70,6 +87,7 @@ SPECIALS = [
     "a = b = c", "(a = b) = c", "a = (b = c)", "a += b -= c", "(a += b) -= c", "a ? b : c ? d : e", "(a ? b : c) ? d : e", "a ? (b ? c : d) : e", "a ? b ? c : d : e",
     "a = b ? c : d", "a = (b ? c : d)", "(a ? b : c) = d", "-(a ? b : c)", "(a ? b : c)++", "[a ? b : c]", "{a ? b : c : d ? e : f}", "f(a ? b : c)",
     "1.50 * 2.0", "79228162514264337593543950335", "0.0000000000000000000000000001",
+    "'C:\\temp'", "'a\tb'", "'line1\nline2'", "'\\'", "\"back\\slash\"", "'\r'", "((a + b) * (c + d)) ++", "!((a || b) && (c || d))", "2 - ((a + b) - (c + d))", "-((a + b) * f(x))", "((a ? b : c) ? d : f(e)) ? 1 : 2",
 ]
 
 
@@ -77,8 +95,8 @@ def run_shard(desc):
     kind, si, nshards, n, profile = desc
     rnd = common.rng(PROP, kind, si)
     items = []  # (label, text, tree or None)
-    if kind in ("nest2", "nest3"):
-        src = nest2() if kind == "nest2" else nest3()
+    if kind in ("nest2", "nest3", "nest2x2"):
+        src = nest2() if kind == "nest2" else (nest3() if kind == "nest3" else nest2x2())
         for i, (label, tree) in enumerate(src):
             if i % nshards == si:
                 items.append((label, ref.Renderer().render(tree), tree))
@@ -187,7 +205,7 @@ def run_shard(desc):
         rt = r.get("rt")
         ok = isinstance(rt, dict) and rt.get("eq") is True and rt.get("ast") == r.get("ast") and rt.get("expr") == r.get("expr")
         if ok:
-            if kind in ("nest2", "nest3"):
+            if kind in ("nest2", "nest3", "nest2x2"):
                 part["classes"].add(label)
             else:
                 classes_of(r["ast"], part["classes"])
@@ -238,6 +256,8 @@ def run(rep, tier):
         shards.append(("nest2", i, 4, 0, "verifdbg" if i % 2 else "release"))
     for i in range(16):
         shards.append(("nest3", i, 16, 0, "verifdbg" if i % 2 else "release"))
+    for i in range(16):
+        shards.append(("nest2x2", i, 16, 0, "verifdbg" if i % 2 else "release"))
     ntree = 60000 if tier == "quick" else 2000000
     per = 2500 if tier == "quick" else 25000
     for i in range(ntree // per):
